@@ -28,7 +28,7 @@ PROPS = ["C06", "C09", "C12", "C16", "C17", "C18", "C19"]
 BUDGET = {
     # runs, determinism pairs, wall cap (s)
     "quick": {"C06": (900, 40, 300), "C12": (900, 100, 300), "C09": (2000, 30, 300), "C16": (2500, 30, 300),
-              "C17": (2500, 120, 300), "C18": (1200, 30, 300), "C19": (800, 30, 300)},
+              "C17": (2200, 100, 300), "C18": (1200, 30, 300), "C19": (800, 30, 300)},
     "thorough": {"C06": (12000, 300, 3000), "C12": (12000, 400, 3000), "C09": (40000, 300, 3000),
                  "C16": (40000, 300, 3000), "C17": (40000, 400, 3000), "C18": (15000, 300, 3000),
                  "C19": (8000, 300, 3000)},
@@ -187,7 +187,7 @@ def run_check(prop, tier, seed, runs=None, workers=None, wall_cap=None):
         coverage["exhaustive_abort_enumeration"] = {
             "items": enum["items"], "abort_points": enum["points"], "aborts_delivered": enum["fired"],
             "failing_points": enum["failures"], "landing_files": enum["landing"], "samples": enum["samples"],
-            "complete": bool(enum.get("complete")),
+            "complete": bool(enum.get("complete")), "line_stride": enum.get("stride", 1),
             "what": ("for each small item, resolve_all() over a shared library and read_fragments(fragment_dict=shared) were aborted at EVERY cgsmiles line index 1..N in a pristine fork; afterwards the library snapshot and a fresh resolver over the same library were compared with the reference")
                     if prop == "C12" else
                     ("for each small configuration, a seeded construct-and-sample (over a fragment dict shared within the history, or from the string) was aborted at EVERY cgsmiles line index 1..N in a pristine fork; the same seeded construct-and-sample executed right afterwards must return exactly the pristine reference molecule and pass all per-molecule oracles")}
@@ -248,22 +248,32 @@ def run_enum(prop, tier, seed, workers, deadline, findings):
     results, errors = procs.run_tasks(probes, n_workers=workers, deadline=deadline)
     tasks = []
     items = 0
+    strides = []
+    probe_errors = []
     for res in results:
-        if res is None or res.get("harness_error") or not res.get("probe") or res["probe"].get("rejected"):
+        if res is None or res.get("harness_error"):
+            probe_errors.append("abort-enumeration probe failed: %s" % ((res or {}).get("harness_error", "no result")[:300],))
+            continue
+        if not res.get("probe") or res["probe"].get("rejected"):
             continue
         items += 1
         probe = res["probe"]
         for which in [w for w in ("resolve_all", "grow", "cs") if w in probe]:
-            ks = list(range(1, probe[which] + 1))
+            # quick tier: at most ~3000 abort points per op (every stride-th line); thorough tier: every line
+            stride = 1 if tier == "thorough" else max(1, -(-probe[which] // 3000))
+            strides.append(stride)
+            ks = list(range(1, probe[which] + 1, stride))
             for start in range(0, len(ks), 120):
                 tasks.append({"prop": prop, "mode": "enum_points", "item_seed": res["item_seed"], "which": which,
                               "ks": ks[start:start + 120], "ref": probe["ref"], "known": findings})
-    out = {"items": items, "points": 0, "fired": 0, "failures": 0, "landing": {}, "replays": [], "errors": list(errors), "samples": []}
+    errors = list(errors) + probe_errors
+    out = {"items": items, "stride": max(strides or [1]), "points": 0, "fired": 0, "failures": 0, "landing": {}, "replays": [], "errors": list(errors), "samples": []}
     if not tasks:
         return out
     results, errors = procs.run_tasks(tasks, n_workers=workers, deadline=deadline)
     out["errors"] += errors
-    out["complete"] = all(r is not None for r in results)
+    out["complete"] = all(r is not None for r in results) and max(strides or [1]) == 1
+    out["stride"] = max(strides or [1])
     for res in results:
         if res is None:
             continue
